@@ -46,7 +46,7 @@ def record(P, start, mode, api, pre=None, ed=None, copy_after=False, nones=False
     ids, pids = np.arange(n, dtype=np.int32), np.array(P if pre is None else pre, dtype=np.int32)
     if pre is not None:
         # history: traverse the pre-state in every mode through both tree entry points, edit the parent of one node in place, traverse again
-        t = Tree(n, id=ids, pid=pids)
+        t = Tree(n, source=lib.SRC, id=ids, pid=pids)
         quiet = [dict(enter=lambda n, p: 0), dict(leave=lambda n, cs: 0), dict(enter=lambda n, p: 0, leave=lambda n, cs: 0)]
         for q in quiet:
             t.traverse(**q); t.node(0).traverse(**q); t.traverse(root=start, **q)
@@ -61,7 +61,7 @@ def record(P, start, mode, api, pre=None, ed=None, copy_after=False, nones=False
     elif api == 0:
         ret = traverse((ids, pids), root=start, **kw)
     else:
-        t = Tree(n, id=ids, pid=pids)
+        t = Tree(n, source=lib.SRC, id=ids, pid=pids)
         ret = t.traverse(root=start, **kw) if api == 1 else t.node(start).traverse(**kw)
     events.append(["R", val(ret)])
     return events
